@@ -8,17 +8,121 @@ TECH = "bounded symbolic execution of the real Rust source (Kani 0.68 -> CBMC 6.
 
 # property -> (level text, level note, design ref)
 CLAIMS = {
+    "C01": (
+        "Bounded model checking of the debugger's half of the breakpoint contract: Breakpoint::{enable, disable} decided for every "
+        "24-byte text image, every alignment of the breakpoint inside its ptrace word and one arbitrary store by the stepped "
+        "instruction (sequence enable; disable; store; enable = step_over_breakpoint around one single step): INT3 at exactly the "
+        "requested byte, saved byte = the byte replaced, restore exact, re-arm keeps working; Tracer::apply_new_status on a "
+        "breakpoint trap decided for every rip, si_code in {TRAP_BRKPT, SI_KERNEL} and breakpoint address pair: reports "
+        "Breakpoint(pid, rip-1), rewinds pc by exactly one and nothing else, marks the thread stopped, requests a group stop.",
+        "Trusted: Kani/CBMC/CaDiCaL; stubs of ptrace read/write/getregs/setregs/getsiginfo onto static models; group_stop_interrupt cut; "
+        "HashMap replaced by an association list in tracee.rs. Outside the claim: that the CPU traps exactly on patched bytes, "
+        "continue_execution's dispatch, DWARF resolution of line/function breakpoints (C04), temporary breakpoints of other threads, "
+        "removal through the BreakpointRegistry (out of solver budget, DESIGN probes 17e/17f), multi-thread races (C09).",
+        "DESIGN.md section 6, C01"),
+    "C02": (
+        "Bounded model checking of INT3 patch hygiene at the Breakpoint level: one arbitrary enable/disable from an arbitrary state "
+        "satisfying the invariant 'memory = pristine image except 0xCC at every armed breakpoint, saved byte = pristine byte' for two "
+        "breakpoints at every pair of offsets in a 24-byte window (same ptrace word in both orders, adjacent and distinct words) "
+        "re-establishes the invariant - an inductive step covering histories of any length for two live breakpoints; with both "
+        "lifted memory equals the pristine image bit for bit. Fault schedule: a failing ptrace read or write leaves memory and "
+        "is_enabled() consistent, and the retry restores/patches exactly.",
+        "Trusted: Kani/CBMC; ptrace read/write stubs (word-granular, EIO outside the window, injectable fault). Outside the claim: "
+        "debuggee output and exit status (CPU), the temporary breakpoints of step_over_any/step_out_frame (Debugger methods), "
+        "BreakpointRegistry::disable_all_breakpoints and call trampolines (C16), a program whose own byte is 0xCC.",
+        "DESIGN.md section 6, C02"),
+    "C04": (
+        "Bounded model checking of the line-table lookup kernels against the DWARF 5 section 6.2 rule written over the same rows: "
+        "find_place_by_pc (largest row address <= pc, never an end_sequence row in preference to a real row at the same address, "
+        "descriptor = that row), find_exact_place_by_pc with next()/prev(), find_eb, find_lines_for_range, and "
+        "prolog_end_place (the function breakpoint address is an instruction of that function, its prologue end when marked), "
+        "for every table of 2-4 symbolic rows (sorted, ties allowed) and every pc / range. Two defects found this way were repaired "
+        "(fix: commits af84fd5, f9f7395).",
+        "Trusted: Kani/CBMC; partial BsUnit with only lines/files written; prolog_start_place and ranges() stubbed in the prologue "
+        "harness. Outside the claim: gimli's decoding of .debug_line/.debug_info, find_closest_place (line -> addresses, behind the "
+        "interned path index), find_function_by_pc's DIE range search, tables longer than the instances run.",
+        "DESIGN.md section 6, C04"),
+    "C05": (
+        "Bounded model checking of the register-carrying kernels of the unwinder: DwarfRegisterMap::{from(RegisterMap), value, update, "
+        "update_from} decided for all register contents against the System V AMD64 psABI DWARF numbering (rax 0 ... r15 15, RA 16, "
+        "eflags 49, segment registers 50-55, fs.base 58, gs.base 59; other numbers RegisterNotFound), and RelocatedAddress::offset "
+        "(CFA + signed offset) for every CFA and offset. Thin: the unwind loop itself is outside.",
+        "Trusted: Kani/CBMC. Outside the claim (most of the statement): FDE lookup and rule evaluation by gimli, the unwind loop and its "
+        "guards, set_frame_into_focus, per-thread stacks.",
+        "DESIGN.md section 6, C05"),
+    "C06": (
+        "Bounded model checking of the hashbrown table scan the debugger uses to show HashMap/HashSet contents: "
+        "match_empty_or_deleted + BitMask drain decided for all 2^128 control groups; HashmapReflection::iter / BucketIterator::next "
+        "decided for every content of tables with 4 buckets and (<= 3 elements) 32 buckets (group boundary): the elements reported "
+        "are exactly the FULL buckets, each once - nothing missing, duplicated or invented, tombstones and padding skipped.",
+        "Trusted: Kani/CBMC; read_memory_by_pid stubbed onto a real harness allocation holding the table. Outside the claim: scalar and "
+        "struct decoding, VecDeque/BTreeMap walks, enum discriminants, type-graph construction, DWARF location evaluation, rendering; "
+        "bucket counts and entry sizes other than the instances run.",
+        "DESIGN.md section 6, C06"),
+    "C10": (
+        "Bounded model checking of the signal injection queue of Tracer::resume and the signal classification of apply_new_status, "
+        "for every signal 1..31: conservation (a queued signal is passed to exactly one PTRACE_CONT of exactly its thread; threads "
+        "with a signal still queued are not resumed; nothing is injected twice) for the queue patterns (), (7), (7,8), (8,8) quick and "
+        "(8), (8,7), (7,7) thorough over two threads; quiet signals pass straight through exactly once without stopping, SIGINT "
+        "stops and is never queued, everything else stops, is reported with its thread and stays queued once. "
+        "One genuine defect is recorded as a known finding (two signals queued for one thread: the first is lost).",
+        "Trusted: Kani/CBMC; ptrace::cont/waitpid/getsiginfo stubs; Tracer::group_stop_interrupt cut to its bookkeeping effect; HashMap "
+        "-> association list in tracee.rs. Outside the claim: the kernel's half of exactly-once, group-stop behaviour, signals inside "
+        "single_step, more than two threads or two queued entries.",
+        "DESIGN.md section 6, C10"),
+    "C12": (
+        "Bounded model checking of the DAP session's sequencing logic with serialisation cut at its boundary: three sends of symbolic "
+        "kind carry seq 1,2,3 in wire order and responses echo request_seq/command/success; and, by sequentialisation at the transport "
+        "lock (Mutex::lock stubbed to let an adversary perform up to two complete foreign sends on the shared counter), sequence "
+        "numbers strictly increase in wire order for every such schedule for send_event_raw and send_response_raw. This check found "
+        "the seq-before-lock defect, repaired by fix: commit 67c6522.",
+        "Trusted: Kani/CBMC; protocol::send_event and serde_json::to_value::<DapResponse> replaced by recorders; the adversary models "
+        "the forwarders as taking their number under the lock (true after the fix; their closures cannot be called from a harness). "
+        "Outside the claim: request handling (needs a Debugger), the lifecycle latch of drain_events (out of solver budget), event "
+        "causality, envelope decode errors, JSON shape.",
+        "DESIGN.md section 6, C12"),
+    "C13": (
+        "Bounded model checking of breakpoint option semantics: HitCondition::{parse, matches} against an independent reader of the "
+        "documented forms (N, =N, ==N, >N, >=N, <N, <=N) for every text of length 2 (quick) and 3-4 (thorough) over [0-9<>= ] and every "
+        "hit count; the record charged for a stop is the first one whose locations contain the stop address (by kind), its hit count "
+        "grows by exactly one (saturating) and no other record changes; literal conditions 0/false/empty do not hold.",
+        "Trusted: Kani/CBMC. Outside the claim (most of the statement): replace semantics and `verified` (need Debugger::set_breakpoint_*), "
+        "records keyed by source path, conditions that are data queries, logpoints.",
+        "DESIGN.md section 6, C13"),
     "C14": (
-        "Bounded model checking of the real code: the DR7/DR6 bit codec (set_dr, configure_bp, dr_enabled, "
-        "detect_and_flush, BreakSize) is decided for every 64-bit register image, slot, length and condition "
-        "against the Intel SDM layout; HardwareBreakpoint::{enable, disable, address_already_observed} are decided as "
-        "one inductive step from an arbitrary invariant state of two threads' debug registers (slot choice, reuse, "
-        "fifth-watchpoint refusal without side effects, no stale enable bits, same image to every thread). "
-        "This is the solver-sized core of the property; it holds for all register contents, which no test samples.",
-        "Trusted: Kani/CBMC/CaDiCaL; stubs of ptrace::read_user/write_user onto a static u_debugreg model; "
-        "std HashMap replaced by an association-list model in tracee.rs. Outside the claim: scoped watchpoints "
-        "(companion breakpoints), survival across restart, that the CPU raises #DB, old/new value rendering, more than two threads.",
+        "Bounded model checking of the real code: the DR7/DR6 bit codec (set_dr, configure_bp, dr_enabled, detect_and_flush, BreakSize) "
+        "is decided for every 64-bit register image, slot, length and condition against the Intel SDM layout; "
+        "HardwareBreakpoint::{enable, disable, address_already_observed} are decided as one inductive step from an arbitrary "
+        "invariant state of two threads' debug registers (slot choice, reuse, fifth-watchpoint refusal without side effects, no "
+        "stale enable bits, same image to every thread).",
+        "Trusted: Kani/CBMC/CaDiCaL; stubs of ptrace::read_user/write_user onto a static u_debugreg model; std HashMap replaced by an "
+        "association-list model in tracee.rs. Outside the claim: scoped watchpoints (companion breakpoints), survival across restart, "
+        "that the CPU raises #DB, old/new value rendering, more than two threads.",
         "DESIGN.md section 6, C14"),
+    "C15": (
+        "Bounded model checking of the word-granular memory kernels and the register file: read_memory_by_pid returns exactly "
+        "MEM[a..a+n] for every content, alignment and n in {0,1,9} (8,16,17 thorough); the DAP byte writer write_bytes changes exactly "
+        "[a, a+n) and nothing else for every content, alignment and n in {1,2,9} (8,17 thorough), across word boundaries; "
+        "RegisterMap <-> user_regs_struct round-trips field by field for all 27 registers and update/value agree.",
+        "Trusted: Kani/CBMC; ptrace::read and Debugger::{read_memory, write_memory} stubbed onto byte-array models. Outside the claim: "
+        "page boundaries / unmapped memory, disassembly masking, setVariable serialisation of composite values, float parsing.",
+        "DESIGN.md section 6, C15"),
+    "C18": (
+        "Bounded model checking of the address arithmetic every load-address-dependent behaviour goes through: Global <-> Relocated "
+        "conversion is an exact bijection for every address and mapping offset (PIE or not), and DwarfRegistry::find_range returns the "
+        "object whose half-open region contains the address for every layout of 2-3 (5 thorough) sorted, non-overlapping, possibly "
+        "adjacent regions. Thin: which offsets and regions exist comes from /proc/<pid>/maps and is outside.",
+        "Trusted: Kani/CBMC; partial DwarfRegistry with only `ranges` written. Outside the claim (almost all of the statement): "
+        "/proc/<pid>/maps parsing, choice of load bias, rendezvous and deferred breakpoints, dlopen; an address equal to a region's "
+        "end is accepted by the code when nothing is mapped there (stated).",
+        "DESIGN.md section 6, C18"),
+    "C19": (
+        "Bounded model checking of the scope-membership kernel used by valid_at / ranges: GlobalAddress::{in_range, in_ranges} is the "
+        "half-open test begin <= pc < end (a sibling block starting where this one ends is not in scope) for every pc and every three "
+        "ranges. Thin: the DIE walk and shadowing order are outside.",
+        "Trusted: Kani/CBMC. Outside the claim (most of the statement): local_variables' BFS and first-match rule, location lists, frame "
+        "selection, register pieces.",
+        "DESIGN.md section 6, C19"),
 }
 
 NOT_APPLICABLE = {
